@@ -499,6 +499,12 @@ class QueryPlanner:
         # if subselect_alias is not None:
         #     subselect_alias = subselect_alias.parts[0]
 
+        # sub-queries of the outer targets / WHERE are planned on their own (as in a join or a select from a table):
+        # the outer select is evaluated over the result of the derived table, it cannot reach any integration
+        find_selects = self.get_nested_selects_plan_fnc(self.default_namespace, force=True)
+        select.targets = query_traversal(select.targets, find_selects)
+        query_traversal(select.where, find_selects)
+
         select2 = copy.deepcopy(select.from_table)
         select2.parentheses = False
         select2.alias = None
